@@ -81,6 +81,57 @@ theorem no_immutable_payload_rewritten {st : Plan} (h : Accepted (.kml st)) :
         (k ≠ .concept → ∀ a ∈ u.actions, a.isStructural = false) :=
   fun c hc u hu x ws k hx hws hk => (((accepted_plan_is_safe h).clauses c hc).update u hu).payload x ws k hx hws hk
 
+/-- The same, said block by block: whichever action of the UPDATE (the i-th, for every i — first,
+later, last, after an empty block) is a SET FIELDS, none of its keys is immutable payload of a kind
+the target is bound to; and no action at any position is structural unless that kind is Concept. -/
+theorem no_immutable_payload_rewritten_in_any_block {st : Plan} (h : Accepted (.kml st)) :
+    ∀ c ∈ st.clauses, ∀ u, c = .update u → ∀ x ws k, u.target = .handle x → u.whereClauses = some ws →
+      k ∈ ws.kindBindings x →
+      (∀ (i : Nat) (asg : Assignments), u.actions[i]? = some (.setFields asg) → ∀ kv ∈ asg, kv.1 ∉ payloadOf k) ∧
+      (k ≠ .concept → ∀ (i : Nat) (a : UpdateAction), u.actions[i]? = some a → a.isStructural = false) := by
+  intro c hc u hu x ws k hx hws hk
+  obtain ⟨h1, h2⟩ := no_immutable_payload_rewritten h c hc u hu x ws k hx hws hk
+  refine ⟨?_, ?_⟩
+  · intro i asg hi kv hkv
+    exact h1 _ (List.mem_of_getElem? hi) kv.1 (by simp [UpdateAction.fieldKeys, assignKeys]; exact ⟨kv.2, hkv⟩)
+  · intro hne i a hi
+    exact h2 hne a (List.mem_of_getElem? hi)
+
+/-- Engine-owned and repeated keys, block by block: in an UPDATE every action at every position, in
+every family every SET FACET block at every position of the facet list. -/
+theorem no_engine_owned_field_in_any_block {st : Plan} (h : Accepted (.kml st)) :
+    (∀ c ∈ st.clauses, ∀ u, c = .update u → ∀ (i : Nat) (a : UpdateAction), u.actions[i]? = some a →
+      ∀ b ∈ a.keyBlocks, (∀ k ∈ b, k ∉ KipGuardTables.protectedFields) ∧ b.Nodup) ∧
+    (∀ c ∈ st.clauses, ∀ fs, (∃ cc, c = .createConcept cc ∧ fs = cc.setFacets) ∨ (∃ cc, c = .upsertConcept cc ∧ fs = cc.setFacets) ∨
+        (∃ cc, (c = .createEvidence cc ∨ c = .createAssertion cc ∨ c = .createActivity cc) ∧ fs = cc.setFacets) →
+      ∀ (i : Nat) (f : FacetAssignment), fs[i]? = some f →
+        (∀ kv ∈ f.values, kv.1 ∉ KipGuardTables.protectedFields) ∧ (assignKeys f.values).Nodup) := by
+  refine ⟨?_, ?_⟩
+  · intro c hc u hu i a hi b hb
+    subst hu
+    have hk := ((accepted_plan_is_safe h).clauses _ hc).keys b
+      (by simp only [keyBlocks]; exact List.mem_flatMap.mpr ⟨a, List.mem_of_getElem? hi, hb⟩)
+    exact hk
+  · intro c hc fs hfs i f hi
+    have hf : f ∈ fs := List.mem_of_getElem? hi
+    have hmem : assignKeys f.values ∈ keyBlocks c := by
+      have hfk : assignKeys f.values ∈ facetKeys fs := by
+        simp only [facetKeys, List.mem_map]
+        exact ⟨f, hf, rfl⟩
+      rcases hfs with ⟨cc, rfl, rfl⟩ | ⟨cc, rfl, rfl⟩ | ⟨cc, hcc, rfl⟩
+      · simp only [keyBlocks, List.mem_append]; exact Or.inr hfk
+      · simp only [keyBlocks, List.mem_append]; exact Or.inl (Or.inl (Or.inr hfk))
+      · rcases hcc with rfl | rfl | rfl <;> (simp only [keyBlocks, List.mem_append]; exact Or.inr hfk)
+    have hk := ((accepted_plan_is_safe h).clauses c hc).keys _ hmem
+    refine ⟨?_, hk.2⟩
+    intro kv hkv
+    exact hk.1 kv.1 (by simp [assignKeys]; exact ⟨kv.2, hkv⟩)
+
+/-- every guard walks every block / action / key it guards (regenerated from the loops of
+`guard_update` and `validate_clause`; the model *interprets* this table, so a guard that stops at a
+first element in the source changes the model and breaks the theorems above) -/
+theorem guards_scan_every_block : ∀ p ∈ KipGuardTables.guardScans, p.2 = "every" := by decide
+
 /-- the payload tables are the generated ones -/
 theorem payload_tables_are_generated :
     payloadOf .assertion = KipGuardTables.assertionImmutable ∧ payloadOf .evidence = KipGuardTables.evidenceImmutable ∧
@@ -209,6 +260,15 @@ theorem assert_text_refused_without_actor_or_mode (a : AssertText) (seq : Nat)
     exact ⟨_, rfl⟩
 
 /-! ### Non-vacuity: both routes accept the demo plan, and refuse through the validator -/
+
+/-- `UPDATE ?t SET FIELDS {note: "x"} SET FIELDS {} SET FIELDS {confidence: 0.1} WHERE {?t ASSERTION {…}}`:
+the offending key sits in the third block, after an empty one -/
+example : validatePlan (oneClause (.update { target := .handle "t", actions := [.setFields [("note", .value (strLit "x"))], .setFields [], .setFields [("confidence", .value { kind := .num, repr := "0.1" })]], whereClauses := some (.cons (.assertion "t" typeIsT) .nil) })) =
+    .error (.immutableField "confidence") := by decide
+example : validatePlan (oneClause (.update { target := .param "t", actions := [.setAttributes [("a", .param "p")], .setFacet { facet := .name "F", values := [("b", .param "p")] }, .unsetAttributes ["ok", "governance"]], whereClauses := none })) =
+    .error (.protectedKey "governance") := by decide
+example : validatePlan (oneClause (.update { target := .handle "t", actions := [.setAttributes [("a", .param "p")], .unsetStructural [{ field := .name "f", value := .param "x" }]], whereClauses := some (.cons (.evidence "t" typeIsT) .nil) })) =
+    .error .structuralTarget := by decide
 
 /-- a stand-in grammar: the identity on already-built trees -/
 def idGrammar (c : Command) : Option Command := some c
